@@ -1,8 +1,41 @@
 (** C29 — Redis gateway commands follow Redis semantics. *)
-From Coq Require Import List NArith ZArith.
+From Coq Require Import List NArith ZArith String.
 From NoKV Require Import Base.Bytes Model.Resp Model.Redis Spec.RedisSpec Proofs.RedisProofs.
 Import ListNotations.
 Local Open Scope N_scope.
+
+(** The gateway as it is now ([current]): for every command sequence whose
+    clock values are below 2^62 and whose keys are non-empty, started on an
+    empty database, the replies of the model of execute + embedded backend
+    are the replies of the reference semantics, and the store (tombstones and
+    expiry seconds abstracted) is the reference's map. *)
+Theorem C29_refines : forall cmds,
+  clocks_ok cmds = true -> keys_nonempty cmds = true ->
+  snd (run current [] cmds) = snd (spec_run empty_map cmds)
+  /\ forall k, abs (fst (run current [] cmds)) k = fst (spec_run empty_map cmds) k.
+Proof. exact refines_from_empty. Qed.
+Print Assumptions C29_refines.
+
+(** From any related pair of states (not only the empty database). *)
+Theorem C29_refines_from : forall cmds st m,
+  R st m -> clocks_ok cmds = true -> keys_nonempty cmds = true ->
+  snd (run current st cmds) = snd (spec_run m cmds)
+  /\ R (fst (run current st cmds)) (fst (spec_run m cmds)).
+Proof. exact run_refines. Qed.
+Print Assumptions C29_refines_from.
+
+(** The hypotheses are satisfiable on a sequence with expiry, INCR, MGET, DEL. *)
+Theorem C29_refines_nonvacuous :
+  clocks_ok sample_cmds = true /\ keys_nonempty sample_cmds = true
+  /\ snd (run current [] sample_cmds)
+     = [RSimple n_OK; RInt 42; RArr [Some (of_string "42"%string); None]; RNil; RInt 0].
+Proof. exact refines_hypotheses_satisfiable. Qed.
+Print Assumptions C29_refines_nonvacuous.
+
+(** The boolean oracle of the correspondence check decides conformance to the reference. *)
+Theorem C29_oracle_decides : forall cmds obs, conforms_b cmds obs = true <-> conforms cmds obs.
+Proof. exact conforms_b_spec. Qed.
+Print Assumptions C29_oracle_decides.
 
 (** Before the repairs made for this property ([original]): *)
 Theorem C29_decrby_min_refuted_before_repair :
